@@ -1,8 +1,8 @@
 package main
 
 import (
-	"go/types"
 	"fmt"
+	"go/types"
 	"sort"
 	"strings"
 
@@ -592,10 +592,14 @@ func c10Clamp(c *Ctx, a *sketchAnchors) {
 				switch {
 				case isStat(e.Val, minF):
 					nMin++
-					guard = func(t *Term) bool { return t.isBin("<") && t.Args[0].unver().Key() == elem.Key() && isStat(t.Args[1], minF) }
+					guard = func(t *Term) bool {
+						return t.isBin("<") && t.Args[0].unver().Key() == elem.Key() && isStat(t.Args[1], minF)
+					}
 				case isStat(e.Val, maxF):
 					nMax++
-					guard = func(t *Term) bool { return t.isBin("<") && isStat(t.Args[0], maxF) && t.Args[1].unver().Key() == elem.Key() }
+					guard = func(t *Term) bool {
+						return t.isBin("<") && isStat(t.Args[0], maxF) && t.Args[1].unver().Key() == elem.Key()
+					}
 				default:
 					bad = "unexpected element store " + e.String()
 					continue
